@@ -94,6 +94,8 @@ Section NoSilentProofs.
   Notation add_libraries := (add_libraries canon is_dir ext_circom).
   Notation add_files := (add_files canon is_dir read_dir join ext_circom).
   Notation new := (new canon is_dir read_dir join ext_circom).
+  Notation new_all := (new_all canon is_dir read_dir join ext_circom).
+  Notation dirs_revisited := (dirs_revisited canon is_dir read_dir join ext_circom).
   Notation take_next := (take_next parent).
   Notation add_includes := (add_includes canon is_file join file_name starts_dot has_sep).
   Notation parse_file := (parse_file canon is_file join file_name starts_dot has_sep content).
@@ -141,11 +143,15 @@ Section NoSilentProofs.
           inversion Hf; subst; congruence.
   Qed.
 
+  (* FileStack::new after 517e7a0 skips a directory it has met before: when none was met twice
+     ([dirs_revisited] = false, evaluated on every run) it computes what the code before the fix computes *)
   Lemma new_reports fuel paths libs st reps :
     new fuel paths libs [] = Ok (st, reps) ->
+    dirs_revisited fuel paths libs = false ->
     forall p q, p ∈ paths -> fails_to_open true p q -> FileOsError q ∈ reps.
   Proof.
-    unfold Includes.new. destruct (add_libraries libs []) as [ls r0] eqn:El.
+    intros Hnew Hrev. apply (new_is_new_all canon is_dir read_dir join ext_circom) in Hnew; [|exact Hrev].
+    revert Hnew. unfold Includes.new_all. destruct (add_libraries libs []) as [ls r0] eqn:El.
     intros Hn. apply bind_ok in Hn as (r & Ha & Hn). inversion Hn; subst.
     apply add_files_reports in Ha as (_ & A2). exact A2.
   Qed.
@@ -222,11 +228,13 @@ Section NoSilentProofs.
 
   Lemma parse_files_served dfuel fuel paths libs s :
     parse_files false dfuel fuel paths libs = Ok s ->
-    served s /\ (forall p q, p ∈ paths -> fails_to_open true p q -> FileOsError q ∈ ps_reports s).
+    served s /\
+    (dirs_revisited dfuel paths libs = false ->
+     forall p q, p ∈ paths -> fails_to_open true p q -> FileOsError q ∈ ps_reports s).
   Proof.
     unfold Includes.parse_files. intros Hp. apply bind_ok in Hp as ([st0 reps0] & Hn & Hl). simpl in Hl.
     apply parse_loop_served in Hl as [H1 H2].
-    - split; [done|]. intros p q Hin Hf. apply H2. simpl. eapply new_reports; eauto.
+    - split; [done|]. intros Hrev p q Hin Hf. apply H2. simpl. eapply new_reports; eauto.
     - split; [|split; [|split]]; simpl.
       + intros f Hf. by apply elem_of_nil in Hf.
       + intros i f u Hi. by rewrite lookup_nil in Hi.
@@ -315,12 +323,15 @@ Section NoSilentProofs.
     Variable argv libs : list path.
     Variable s : parse_state (path:=path).
     Hypothesis Hrun : parse_files false dfuel fuel argv libs = Ok s.
+    (* no directory was met twice while the command line was expanded (Model.Includes.dirs_revisited, evaluated on
+       every run): FileStack::new then reads what the specification's [named] says *)
+    Hypothesis Hrev : dirs_revisited dfuel argv libs = false.
 
     (* the file ids of the user-input set are those of the named files *)
     Lemma user_id_iff_named z : In z (user_ids s) <-> file_is_named argv s z.
     Proof.
       pose proof (included_only_files_are_not_user_inputs canon is_dir is_file read_dir join parent file_name
-                    ext_circom starts_dot has_sep content canon_idem dfuel fuel argv libs s Hrun) as [_ HU].
+                    ext_circom starts_dot has_sep content canon_idem dfuel fuel argv libs s Hrev Hrun) as [_ HU].
       rewrite user_ids_spec. unfold NoSilentSpec.file_is_named. split.
       - intros (i & f & -> & Hi). exists i, f, true. repeat split; try done. by apply (HU i f true Hi).
       - intros (i & f & u & -> & Hi & Hn). exists i, f. split; [done|].
@@ -331,14 +342,14 @@ Section NoSilentProofs.
     Proof.
       intros Hn.
       apply (reads_exactly_reachable canon is_dir is_file read_dir join parent file_name
-               ext_circom starts_dot has_sep content canon_idem dfuel fuel argv libs s Hrun).
+               ext_circom starts_dot has_sep content canon_idem dfuel fuel argv libs s Hrev Hrun).
       by apply reach_named.
     Qed.
 
     Lemma reachable_is_read f : reachable (named argv) (the_libraries libs) f -> f ∈ ps_read s.
     Proof.
       apply (reads_exactly_reachable canon is_dir is_file read_dir join parent file_name
-               ext_circom starts_dot has_sep content canon_idem dfuel fuel argv libs s Hrun).
+               ext_circom starts_dot has_sep content canon_idem dfuel fuel argv libs s Hrev Hrun).
     Qed.
 
     Lemma not_included_only r : not_in_included_only argv s r -> ~ located_only_in_included (user_ids s) r.
@@ -453,7 +464,7 @@ Section NoSilentProofs.
         In r (produced (front_project s others defs)) /\ r_level r = Error /\
         not_in_included_only argv s r.
       Proof.
-        pose proof (parse_files_served _ _ _ _ _ Hrun) as [(SU & SP & SE & _) SO].
+        pose proof (parse_files_served _ _ _ _ _ Hrun) as [(SU & SP & SE & _) SO]. specialize (SO Hrev).
         destruct c; simpl.
         - (* MissingFile *)
           intros (p & q & Hp & Hf & ->). split; [apply front_report_produced; eauto|]. split; [done|]. by left.
@@ -563,7 +574,7 @@ Section NoSilentProofs.
            file_is_named argv s (Z.of_N fid) -> ~ In n (map fst (Desugar.d_functions sd)) ->
            exists r, failure_event argv libs s pr sd rest InvalidTupleOrAnonymous r).
       Proof.
-        pose proof (parse_files_served _ _ _ _ _ Hrun) as [(SU & SP & SE & _) SO].
+        pose proof (parse_files_served _ _ _ _ _ Hrun) as [(SU & SP & SE & _) SO]. specialize (SO Hrev).
         split; [|split; [|split]].
         - intros f Hn Hc. destruct (SE f (named_is_read f Hn)) as (i & u & Hi); [congruence|].
           eexists. simpl. exists f, i, u. done.
